@@ -38,6 +38,15 @@ def templates(ks):
         out.append(('filter(%d)' % k, 'range(%d).to_generator().filter(pos).to_array()' % k, 2, 1 + k, 0, k, True))  # consuming a generator is a search
         out.append(('nth(%d)' % k, 'count().nth(0, ge(%d))' % k, 2, 1 + 1 + (k + 1), 0, k + 1, True))
         out.append(('take_while(%d)' % k, 'count().take_while(lt(%d)).len()' % k, 2, 1 + 1 + (k + 1), 0, k + 1, True))
+        # searches over finite sequences / generators that examine every one of k elements and no more
+        out.append(('skip_until-fin(%d)' % k, 'range(%d).skip_until(ge(%d)).len()' % (k, k), 2, 1 + 1, 0, k, False))
+        out.append(('take_while-fin(%d)' % k, 'range(%d).take_while(lt(%d)).len()' % (k, k), 2, 1 + 1, 0, k, False))
+        out.append(('first-fin(%d)' % k, 'range(%d).first(ge(%d)).has_value()' % (k, k), 2, 1 + 1, 0, k, False))
+        out.append(('any-fin(%d)' % k, 'range(%d).any(ge(%d))' % (k, k), 2, 1 + 1, 0, k, False))
+        out.append(('all-fin(%d)' % k, 'range(%d).all(lt(%d))' % (k, k), 2, 1 + 1, 0, k, False))
+        out.append(('nth-fin(%d)' % k, 'range(%d).nth(0, ge(%d)).has_value()' % (k, k), 2, 1 + 1, 0, k, False))
+        # (elements a lazy generator adaptor drops are charged nowhere: the budget is charged where a generator is consumed; not specified)
+        out.append(('gen-take_while-fin(%d)' % k, 'range(%d).to_generator().take_while(lt(%d)).len()' % (k, k), 2, 1 + 1, 0, k, False))
         out.append(('loop-in-map(%d)' % k, 'range(2).map((x: int)->{ loop(%d, 0) }).to_array()' % k, 3, 1 + 2 * 2, k, 0, True))
         out.append(('tail-default(%d)' % k, 'walk(%d)' % k, 2, 2, k, 0, True))
         out.append(('tail-default2(%d)' % k, 'walk2(%d)' % k, 2, 2, k, 0, True))
@@ -47,6 +56,9 @@ def templates(ks):
         out.append(('printing(%d)' % k, 'range(%d).map(shout).to_array()' % k, 2, 1 + k, 0, 0, True))
         out.append(('reduce(%d)' % k, 'range(%d).reduce(add2)' % (k + 1), 2, 1 + k, 0, 0, False))
         out.append(('sort(%d)' % k, 'range(%d).map((x: int)->{ %d - x }).sort((a: int, b: int)->{ cmp(a, b) })' % (k + 1, k), 2, 1 + k, 0, 0, False))
+    # a call that is skipped because an argument is an error value is not a call: its body never starts
+    out.append(('skipped-calls', '(is_error(inc(error("e"))), is_error(inc(error("e"))), is_error(inc(error("e"))), inc(1))', 2, 2, 0, 0, True))
+    out.append(('skipped-calls-lambda', 'let f = (x: int)->{ x }; (is_error(f(error("e"))), is_error(f(error("e"))), f(1))', 2, 2, 0, 0, True))
     out.append(('closure', 'let h = ge(2); h(5)', 2, 3, 0, 0, True))
     out.append(('default-param', 'let f = (x: int ?= inc(1))->{ x }; f() + f()', 2, 4, 0, 0, True))
     out.append(('no-calls', '1 + 2', 1, 1, 0, 0, True))
@@ -240,6 +252,9 @@ def run(tier):
                 if kind == 'calls':
                     if bool(vk) != (cud is not None and cud >= L):
                         rep.fail(Failure(PROP, sig + '|call-threshold', case, 'violation iff measured calls %r >= L' % cud, vr, job))
+                if kind == 'search' and S > 0 and bool(vk) != (S > L):
+                    rep.fail(Failure(PROP, sig + ('|missing-violation' if not vk else '|spurious-violation:' + vk), case,
+                                     'MaximumSearch iff more than L elements are examined (%d are)' % S, vr, job))
                 if kind == 'depth' and not vk and D >= L:
                     rep.fail(Failure(PROP, sig + '|missing-violation', case, 'MaximumStackDepth (depth >= %d)' % D, vr, job))
                 key = (name, kind)
